@@ -21,6 +21,9 @@ namespace rkcommon {
       OwnedArray()           = default;
       ~OwnedArray() override = default;
 
+      OwnedArray(const OwnedArray &other);
+      OwnedArray &operator=(const OwnedArray &other);
+
       template <size_t SIZE>
       OwnedArray(std::array<T, SIZE> &init);
 
@@ -43,6 +46,21 @@ namespace rkcommon {
     };
 
     // Inlined OwnedArray definitions /////////////////////////////////////////
+
+    template <typename T>
+    inline OwnedArray<T>::OwnedArray(const OwnedArray &other)
+        : AbstractArray<T>(), dataBuf(other.dataBuf)
+    {
+      AbstractArray<T>::setPtr(dataBuf.data(), dataBuf.size());
+    }
+
+    template <typename T>
+    inline OwnedArray<T> &OwnedArray<T>::operator=(const OwnedArray &other)
+    {
+      dataBuf = other.dataBuf;
+      AbstractArray<T>::setPtr(dataBuf.data(), dataBuf.size());
+      return *this;
+    }
 
     template <typename T>
     inline OwnedArray<T>::OwnedArray(T *_data, size_t _size)
